@@ -54,10 +54,10 @@ pub fn plan_c09(thorough: bool) -> Plan {
     // symbols: four fixed commits, an overlay-chain commit, rollbacks, reopens
     let symbols = |ovid: u64| -> Vec<Vec<Value>> {
         vec![
-            vec![c(vec![w(0, 1)])],
+            vec![c(vec![w(0, 1), w(3, 0)])],
             vec![c(vec![w(1, 1333), del(0)])],
             vec![c(vec![w(2, 8192), w(0, 2)])],
-            vec![c(vec![del(1), del(2)])],
+            vec![c(vec![del(1), del(2), w(3, 5)])],
             vec![json!({"ov": {"id": ovid, "on": [], "b": [w(3, 1), del(0)]}}), json!({"ovc": ovid})],
             vec![json!({"rb": 1})],
             vec![json!({"rb": 2})],
@@ -119,10 +119,32 @@ pub fn plan_c09(thorough: bool) -> Plan {
             }
         }
     }
+    // explicit overlay chains: an ancestor deletes / rewrites a key that exists on disk and a
+    // descendant writes it blindly or after reading; both committed; rolled back step by step
+    for (a, b) in [
+        (vec![del(0)], vec![w(0, 7)]),
+        (vec![del(0)], vec![json!([0, "rw", 7])]),
+        (vec![w(0, 1333)], vec![w(0, 7), del(1)]),
+        (vec![del(0), del(1)], vec![w(1, 0)]),
+        (vec![w(2, 70000)], vec![del(2), w(0, 0)]),
+    ] {
+        for tail in [vec![json!({"rb": 1}), json!({"rb": 1})], vec![json!({"rb": 2})], vec![json!({"reopen": {}}), json!({"rb": 1}), json!({"rb": 1})]] {
+            let cfg = rb_cfg(3, 0);
+            let mut ops = vec![
+                c(vec![w(0, 5), w(1, 6)]),
+                json!({"ov": {"id": 0, "on": [], "b": a}}),
+                json!({"ov": {"id": 1, "on": [0], "b": b}}),
+                json!({"ovc": 0}),
+                json!({"ovc": 1}),
+            ];
+            ops.extend(tail);
+            cases.push(case("empty", vec!["U4"], &cfg, "noproof", ops, 4, true));
+        }
+    }
     sort_by_bound(&mut cases);
     let mut p = Plan::new(
         cases,
-        "histx: every sequence of ≤L symbols over {4 fixed commit batches (1 B, 1333 B, 8 KiB values, deletes), commit of an overlay, rollback(1), rollback(2), rollback(3), reopen} for max_rollback_log_len ∈ {1,2,3} × rollback segment size ∈ {4 KiB (one record per segment), 8 KiB, 64 MiB}, plus a reopen with a different log length at every position; oracle: rollback(n) with n ≤ retained commits succeeds and values/root/seqn equal the model's state n commits back; a request beyond what exists fails, changes nothing and does not poison; between the two the store may either refuse or be exactly right (it legitimately retains more than configured across a reopen); every history ends with a reopen and audit (the store never becomes unopenable). bound = sequence length.",
+        "histx: every sequence of ≤L symbols over {4 fixed commit batches (1 B, 1333 B, 8 KiB values, deletes), commit of an overlay, rollback(1), rollback(2), rollback(3), reopen} for max_rollback_log_len ∈ {1,2,3} × rollback segment size ∈ {4 KiB (one record per segment), 8 KiB, 64 MiB}, plus a reopen with a different log length at every position; plus explicit two-overlay chains in which the ancestor deletes/rewrites an on-disk key and the descendant writes it (blind and read-then-write, empty values, overflow values), committed in order and rolled back one by one / at once / after a reopen; oracle: rollback(n) with n ≤ retained commits succeeds and values/root/seqn equal the model's state n commits back; a request beyond what exists fails, changes nothing and does not poison; between the two the store may either refuse or be exactly right (it legitimately retains more than configured across a reopen); every history ends with a reopen and audit (the store never becomes unopenable). bound = sequence length.",
     );
     p.budget_s = if thorough { 1700 } else { 45 };
     p
@@ -156,6 +178,9 @@ pub fn plan_c10(thorough: bool) -> Plan {
     base.extend(enum_commit_histories(2, 4, if thorough { 2 } else { 1 }, &acts, &mk("leaf", vec!["seed:0,2,5", "CL0:0-1"], cfg.clone())));
     base.extend(enum_commit_histories(2, 4, if thorough { 2 } else { 1 }, &acts[..3].to_vec(), &mk("cl12x20", vec!["CL12:18-22"], cfg.clone())));
     base.extend(enum_commit_histories(2, 3, 1, &acts[..3].to_vec(), &mk("cl18x21", vec!["CL18:19-22"], cfg.clone())));
+    // empty values and their overwrite (the rollback log must keep 'empty' apart from 'absent')
+    base.push(case("empty", vec!["U4"], &cfg, "all", vec![c(vec![w(0, 0), w(1, 1)]), c(vec![w(0, 3), del(1)])], 2, false));
+    base.push(case("empty", vec!["U4"], &cfg, "all", vec![c(vec![w(0, 0)]), c(vec![del(0)])], 2, false));
     // delete down to one key and to zero keys, then reopen
     base.push(case("empty", vec!["U4"], &cfg, "all", vec![c(vec![w(0, 1), w(1, 1)]), c(vec![del(0)])], 2, false));
     base.push(case("empty", vec!["U4"], &cfg, "all", vec![c(vec![w(0, 70000)]), c(vec![del(0)])], 2, false));
@@ -171,6 +196,7 @@ pub fn plan_c10(thorough: bool) -> Plan {
                 o.insert(pos, json!({"reopen": m}));
                 // follow-up: one more commit and a rollback after the reopen
                 o.push(c(vec![w(0, 5), del(1)]));
+                o.push(json!({"rb": 1}));
                 o.push(json!({"rb": 1}));
                 let mut nc = cse.clone();
                 nc["ops"] = Value::Array(o);
@@ -470,10 +496,31 @@ pub fn plan_c05(thorough: bool) -> Plan {
             false,
         ));
     }
+    // overlay that deletes a run of consecutive on-disk keys spanning several value-leaf pages
+    // (3 keys per leaf in the branch seed); proofs for the survivors and the deleted keys
+    {
+        let mut cfg = Cfg::default();
+        cfg.buckets = 256;
+        for start in [0u64, 1, 4] {
+            for run in [1u64, 3, 4, 7, 11] {
+                let b: Vec<Value> = (start..start + run).map(del).collect();
+                cases.push(case(
+                    "branch",
+                    vec!["seed:0,1,2,3,4,5,6,7,8,9,10,11,12,13,14,15,16"],
+                    &cfg,
+                    "proofs",
+                    vec![json!({"ov": {"id": 0, "on": [], "b": b}}), json!({"ov": {"id": 1, "on": [0], "b": []}})],
+                    3,
+                    false,
+                ));
+            }
+        }
+    }
+    cases.extend(tombstone_family("proofs", thorough));
     sort_by_bound(&mut cases);
     let mut p = Plan::new(
         cases,
-        "histx: all histories of ≤D commits with ≤B key actions {insert, delete} over a 4-key family and over 19/20/21-key merkle clusters (paths crossing elided pages), hash tables of 8/32/4096 buckets, minimum page cache; universe = the keys plus, for each, the absent keys differing in exactly one of bits {0,1,5,6,7,11,12,13,18,127,254,255}; after every commit and after a final reopen (cold cache) every universe key is proven in a fresh session: the proof verifies against session.prev_root() (= reference root) and confirms exactly the model's view (value hash for present keys, non-existence for absent ones); plus sessions layered on overlay chains of depth 1–2 and 3 over the cluster.",
+        "histx: all histories of ≤D commits with ≤B key actions {insert, delete} over a 4-key family and over 19/20/21-key merkle clusters (paths crossing elided pages), hash tables of 8/32/4096 buckets, minimum page cache; universe = the keys plus, for each, the absent keys differing in exactly one of bits {0,1,5,6,7,11,12,13,18,127,254,255}; after every commit and after a final reopen (cold cache) every universe key is proven in a fresh session: the proof verifies against session.prev_root() (= reference root) and confirms exactly the model's view (value hash for present keys, non-existence for absent ones); plus sessions layered on overlay chains of depth 1–2 and 3 over the cluster, overlays deleting runs of 1..11 consecutive on-disk keys across several value-leaf pages, and the tombstone family (tiny hash tables of 16/32 buckets × 16 bitbox seeds, 10 pages inserted, every single page and every pair of pages removed again, then a cold reopen).",
     );
     p.budget_s = if thorough { 1700 } else { 45 };
     p
@@ -597,4 +644,74 @@ pub fn plan_c13(thorough: bool) -> Plan {
     p.budget_s = if thorough { 1700 } else { 45 };
     p.assumptions = vec!["thread interleavings of the internal workers are those the OS scheduler produced in these runs plus the controlled schedules of the schedx engine (see C15 evidence); sequentially-consistent interleavings only".into()];
     p
+}
+
+/// Tiny hash tables with heavy collisions and tombstones: `k` key pairs (one depth-1 merkle page
+/// each) are inserted, then every single pair / every two pairs are deleted (their pages are
+/// cleared: tombstones in the middle of other pages' probe chains), then the store is reopened
+/// (cold) and audited. 12 (thorough 32) plain bitbox seeds plus 6 (16) adversarial ones found by search (two pages with equal tag and equal first bucket ⇒ guaranteed mis-probes) × {16, 32} buckets.
+/// Bitbox seeds under which two of the pages {root, [0], …, [k-1]} get the same meta-map tag and
+/// the same first bucket in a table of `buckets` buckets: the page inserted second then sits
+/// behind a *possible hit* on its probe path (a mis-probe on every cold lookup).
+pub fn misprobe_seeds(buckets: u32, k: u64, want: usize) -> Vec<u32> {
+    let mut ids = vec![crate::imgdec::page_id_bytes(&[])];
+    for i in 0..k {
+        ids.push(crate::imgdec::page_id_bytes(&[i as u8]));
+    }
+    let mut out = vec![];
+    for seed in 0..200_000u32 {
+        let sb = crate::driver::seed_bytes(seed);
+        let hs: Vec<u64> = ids.iter().map(|id| crate::imgdec::page_hash(id, &sb)).collect();
+        let mut hit = false;
+        for a in 0..hs.len() {
+            for b in a + 1..hs.len() {
+                if hs[a] >> 57 == hs[b] >> 57 && hs[a] % buckets as u64 == hs[b] % buckets as u64 {
+                    hit = true;
+                }
+            }
+        }
+        if hit {
+            out.push(seed);
+            if out.len() == want {
+                break;
+            }
+        }
+    }
+    out
+}
+
+pub fn tombstone_family(audit: &str, thorough: bool) -> Vec<Value> {
+    let mut cases = vec![];
+    let k = 9u64;
+    let uni = format!("PAIRS:{k}");
+    for buckets in [16u32, 32] {
+        let mut seeds: Vec<u32> = (0..(if thorough { 32u32 } else { 12u32 })).collect();
+        // adversarial seeds: tag + first-bucket collisions between two of the pages
+        seeds.extend(misprobe_seeds(buckets, k, if thorough { 16 } else { 6 }));
+        for seed in seeds {
+            let mut cfg = Cfg::default();
+            cfg.buckets = buckets;
+            cfg.seed = seed as u32;
+            cfg.page_cache = 1;
+            let fill: Vec<Value> = (0..2 * k).map(|i| w(i, 1)).collect();
+            let mut dels: Vec<Vec<u64>> = (0..k).map(|i| vec![i]).collect();
+            if thorough {
+                for i in 0..k {
+                    for j in i + 1..k {
+                        dels.push(vec![i, j]);
+                    }
+                }
+            } else {
+                for i in 0..k - 1 {
+                    dels.push(vec![i, i + 1]);
+                }
+            }
+            for d in dels {
+                let db: Vec<Value> = d.iter().flat_map(|i| vec![del(2 * i), del(2 * i + 1)]).collect();
+                let back: Vec<Value> = d.iter().take(1).flat_map(|i| vec![w(2 * i, 2), w(2 * i + 1, 2)]).collect();
+                cases.push(case("empty", vec![&uni], &cfg, audit, vec![c(fill.clone()), c(db), json!({"reopen": {}}), c(back), json!({"reopen": {}})], 3, false));
+            }
+        }
+    }
+    cases
 }
